@@ -126,7 +126,14 @@ def one(case):
 
 
 def run_cases(cases):
-    return [one(c) for c in cases]
+    out = []
+    for c in cases:
+        try:
+            out.append(one(c))
+        except Exception as e:       # constructing, converting and rebuilding never raises on the unchanged code for these inputs
+            out.append({"rep": c[0], "raised": type(e).__name__, "inp": limbs_in(c[1], c[2], c[3], c[4]), "din": {"neg": bool(c[6]), "s": c[7], "us": c[8]},
+                        "out": {"d": 0, "s": 0, "us": 0, "utc": False}, "dout": {"neg": False, "s": 0, "us": 0}})
+    return out
 
 
 DATAS = [{}, {"a": 1}, {"title": "ü\"'\\ ☃", "l": [1, {"k": None}], "f": 0.5}, {"nested": {"x": [True, None, 1.25e-3]}}]
